@@ -93,7 +93,14 @@ std::unique_ptr<NodeResult> AssignNode::evaluate(PSC::Context &ctx) {
         if (valueRes->type == PSC::DataType::NONE)
             throw PSC::RuntimeError(token, ctx, "Expected a value for assignment");
         
-        var = new PSC::Variable(simpleSource->getName(), valueRes->type, false, &ctx);
+        PSC::DataType varType = valueRes->type;
+        if (varType.name != nullptr) {
+            // the value's type name may live inside the value itself: use the definition's
+            Token typeToken(TokenType::IDENTIFIER, token.line, token.column, *varType.name);
+            PSC::DataType defined = ctx.getType(typeToken);
+            if (defined.type == varType.type) varType = defined;
+        }
+        var = new PSC::Variable(simpleSource->getName(), varType, false, &ctx);
         ctx.addVariable(var);
     }
 
